@@ -302,31 +302,35 @@ func (b Branch) CopyEmpty() *Branch {
 	}
 }
 
+// IntersectHash returns the hash of the last header that is in the ancestry of both branches. The
+// branches don't have to be an ancestor of one another, they can be siblings or cousins that only
+// share an older branch.
 func (b *Branch) IntersectHash(other *Branch) *bitcoin.Hash32 {
-	current := b
-	for {
-		if current.parent == nil {
-			break
-		}
-
-		if current.parent == other {
-			return &current.firstHeader.PrevBlock
-		}
-
-		current = current.parent
+	// For each branch in the ancestry of b, the highest height at which b's chain is still in it.
+	topHeights := make(map[*Branch]int)
+	height := b.Height()
+	for current := b; current != nil; current = current.parent {
+		topHeights[current] = height
+		height = current.parentHeight
 	}
 
-	current = other
-	for {
-		if current.parent == nil {
-			break
+	// Walk up the ancestry of other until a branch that is shared with b is found.
+	height = other.Height()
+	for current := other; current != nil; current = current.parent {
+		if topHeight, exists := topHeights[current]; exists {
+			if height < topHeight {
+				topHeight = height
+			}
+
+			data := current.AtHeight(topHeight)
+			if data == nil {
+				return nil // pruned
+			}
+
+			return &data.Hash
 		}
 
-		if current.parent == b {
-			return &current.firstHeader.PrevBlock
-		}
-
-		current = current.parent
+		height = current.parentHeight
 	}
 
 	return nil
